@@ -730,6 +730,73 @@ func TestCutSources(t *testing.T) {
 	tl.flush("enum/")
 }
 
+// Opcodes that are not ping/pong/close (continuation, text, binary and the
+// reserved ones): ControlHandler.Handle documents ErrNotControlFrame; nothing
+// is written to Dst and nothing is read from Src. The adapters
+// (ControlFrameHandler, HandleControlMessage and its Client/Server variants)
+// only refer to ControlHandler: no reply frame, and an error comes back.
+func TestNotControlFrame(t *testing.T) {
+	n := 0
+	for op := 0; op < 16; op++ {
+		if op == ref.OpClose || op == ref.OpPing || op == ref.OpPong {
+			continue
+		}
+		for _, l := range []int{0, 1, 2, 125, 126, 300} {
+			for _, server := range []bool{true, false} {
+				for _, fin := range []bool{true, false} {
+					state := ws.StateClientSide
+					if server {
+						state = ws.StateServerSide
+					}
+					payload := payloadOf(l, byte(op))
+					h := ws.Header{Fin: fin, OpCode: ws.OpCode(op), Length: int64(l), Masked: server, Mask: [4]byte{1, 2, 3, byte(op)}}
+					desc := map[string]interface{}{"opcode": op, "len": l, "server": server, "fin": fin}
+					n++
+					if l > 0 {
+						hx.NonTrivial(hx.Hash("notctl", op, l, server, fin), func() interface{} { return desc })
+					}
+					for _, plain := range []bool{false, true} {
+						src, rec := tx.NewSrc(payload, nil), tx.NewRec()
+						err := wsutil.ControlHandler{Src: src, Dst: rec, State: state, DisableSrcCiphering: plain}.Handle(h)
+						if err != wsutil.ErrNotControlFrame || rec.Len() != 0 || src.Reads != 0 {
+							hx.Failf(t, desc, "ControlHandler.Handle (DisableSrcCiphering=%v): err=%v, %d bytes written, %d reads of Src; want ErrNotControlFrame, nothing written, Src untouched",
+								plain, err, rec.Len(), src.Reads)
+							return
+						}
+					}
+					{
+						src, rec := tx.NewSrc(payload, nil), tx.NewRec()
+						if err := wsutil.ControlFrameHandler(rec, state)(h, src); err == nil || rec.Len() != 0 {
+							hx.Failf(t, desc, "ControlFrameHandler: err=%v, %x written; want an error and no reply", err, rec.Bytes())
+							return
+						}
+					}
+					msg := wsutil.Message{OpCode: ws.OpCode(op), Payload: payload}
+					rec := tx.NewRec()
+					err := wsutil.HandleControlMessage(rec, state, msg)
+					if err == nil || rec.Len() != 0 {
+						hx.Failf(t, desc, "HandleControlMessage: err=%v, %x written; want an error and no reply", err, rec.Bytes())
+						return
+					}
+					rec = tx.NewRec()
+					if server {
+						err = wsutil.HandleClientControlMessage(rec, msg)
+					} else {
+						err = wsutil.HandleServerControlMessage(rec, msg)
+					}
+					if err == nil || rec.Len() != 0 {
+						hx.Failf(t, desc, "Handle{Client,Server}ControlMessage: err=%v, %x written; want an error and no reply", err, rec.Bytes())
+						return
+					}
+				}
+			}
+		}
+	}
+	hx.EvalN(n)
+	hx.Part("not a control frame: 13 opcodes x 6 payload lengths x side x fin, through Handle (both source modes), ControlFrameHandler, HandleControlMessage and its side variants", int64(n), true)
+	tally{"enum/not-control/ErrNotControlFrame-nothing-written": n}.flush("")
+}
+
 // ---------------------------------------------------------------------------
 // random cases
 
